@@ -1,6 +1,6 @@
 SPECIFICATION Spec
 CONSTANTS
-  MaxLines = 5
+  MaxLines = 6
   Emit = TRUE
 INVARIANTS CleanLaws PipelineLaws
 CONSTRAINT EmitCase
